@@ -69,7 +69,7 @@ def _work(arg):
 
 def merge(total, res):
     for k, v in res.items():
-        if k in ('violations', 'samples', 'digests', 'path_sigs', 'unit', 'probe_errors'):
+        if k in ('violations', 'samples', 'digests', 'path_sigs', 'unit', 'probe_errors', 'timeout_scenarios'):
             continue
         if isinstance(v, dict):
             d = total.setdefault(k, {})
@@ -144,7 +144,8 @@ def fresh_replay(path, hashseed='12345'):
 # the check driver
 # ---------------------------------------------------------------------------------------------------------------
 
-def run_check(check_id, tier, seed, workers=None, max_report=4, quiet=False):
+def run_check(check_id, tier, seed, workers=None, max_report=None, quiet=False):
+    max_report = max_report or int(os.environ.get("DSIM_MAX_REPORT", "4"))
     from . import checks
     t0 = time.time()
     spec = checks.CHECKS[check_id]
@@ -250,6 +251,11 @@ def run_check(check_id, tier, seed, workers=None, max_report=4, quiet=False):
                 all_viol.append(v)
             for pe in r.get('probe_errors', []):
                 harness_errors.append('probe error: ' + pe)
+            for ts in r.get('timeout_scenarios', []):
+                path = write_replay(check_id, dict(kind='solve', property=check_id, scenario=ts, probes=list(leg['opts'].get('probes', ())),
+                                                   oracles=list(leg['opts'].get('oracles', [check_id])), expect=dict(prop=check_id, clause='harness-timeout', site='wall_clock'),
+                                                   detail='run exceeded the wall-clock guard'), 'timeout-' + S.scenario_hash(ts))
+                harness_errors.append('HARNESS-TIMEOUT: a run exceeded the wall-clock guard (no verdict); scenario saved as %s' % path)
         per_leg.append(dict(name=leg['name'], units=leg['units'], runs=lt.get('runs', 0), evals=lt.get('evals', 0), wall_cpu_s=round(lt.get('wall', 0.0), 1),
                             cut_points=lt.get('cut_points', 0), fault_points=lt.get('fault_points', 0)))
 
@@ -304,6 +310,13 @@ def run_check(check_id, tier, seed, workers=None, max_report=4, quiet=False):
                 rec['features'] = S.features(small)
             except BaseException as e:
                 rec['minimisation'] = dict(error=repr(e))
+        if rec['kind'] != 'solve' and not spec.get('no_minimise'):
+            from . import checks as _ch
+            if rec['kind'] in _ch.MINIMISERS:
+                try:
+                    rec = _ch.MINIMISERS[rec['kind']](rec, same_failure)
+                except BaseException as e:
+                    rec['minimisation'] = dict(error=repr(e))
         try:
             vs2, dig = reproduce(rec)
             hit = same_failure(vs2, rec['expect'])
